@@ -1,13 +1,16 @@
 (** * C20 — Underlying failures are never reported as success (pinned statements).
-    partial: the theorems below are the building blocks (the injected fault is an I/O error of the
-    failing call; [?] propagates every error unchanged; the sites that inspect an error kind -
-    create_dir_all, OverlayFS::exists, the same-instance fast path - let an I/O error through;
-    lower overlay layers are never written whatever the replies are).  That every composite and
-    adapter operation is built from these sites only is checked by the faulted correspondence runs. *)
+    The first group are the building blocks (the injected fault is an I/O error of the failing call;
+    [?] propagates every error unchanged; the sites that inspect an error kind - create_dir_all,
+    OverlayFS::exists, the same-instance fast path - let an I/O error through; lower overlay layers
+    are never written whatever the replies are).  The second group (Proofs/IoStrict.v) is the
+    whole-program statement: every trait call of every stacking and every operation of the path API
+    is *strict* - on every path through its program tree on which an underlying I/O failure or an
+    injected fault occurs, whatever all other replies are, it returns an I/O error (a walk yields one
+    as an item) - and on the real base handler: if the armed fault fired, the outcome is an I/O error. *)
 From stdpp Require Import gmap list.
 From Coq Require Import NArith ZArith.
 From VFS Require Import Core.Types Core.Prog Core.Calls Base.Store Layer.VfsPath Layer.Overlay Layer.Config
-  Proofs.CallsOk Proofs.AdapterOk Proofs.ConfigOk Proofs.Faults.
+  Proofs.CallsOk Proofs.AdapterOk Proofs.ConfigOk Proofs.Faults Proofs.IoStrict.
 
 Theorem C20_fault_is_io_error : forall k inner c bases hs lg,
   run bhandler (wrap_impl k inner c) (mkStore bases hs lg (Some (k, 0))) =
@@ -39,6 +42,50 @@ Theorem C20_lower_layers_untouched_under_faults : forall (f : fsref),
   consistent f -> forall c, calls_ok (mut_in (wbases f)) (interp f c).
 Proof. exact interp_writes. Qed.
 
+(** every trait call of every stacking (altroot, overlays of any number of layers, nested in any way,
+    the fault-injecting wrapper anywhere) is strict *)
+Theorem C20_stackings_strict : forall (f : fsref) (c : fscall), strict (interp f c).
+Proof. exact st_interp. Qed.
+
+(** and so is every operation of the path API on top of strict instances, the transfers between two
+    instances included *)
+Theorem C20_path_api_strict : forall (utf8 : bytes -> bool) (f g : fsref) fuel p q t,
+  let v := vfs_of f in let v' := vfs_of g in
+  strict (vp_exists v p) /\ strict (vp_metadata v p) /\ strict (vp_read_dir v p) /\
+  strict (vp_create_dir v p) /\ strict (vp_create_file v p) /\ strict (vp_append_file v p) /\
+  strict (vp_open_file v p) /\ strict (vp_remove_file v p) /\ strict (vp_remove_dir v p) /\
+  strict (vp_set_ctime v p t) /\ strict (vp_set_mtime v p t) /\ strict (vp_set_atime v p t) /\
+  strict (vp_is_file v p) /\ strict (vp_is_dir v p) /\
+  strict (vp_create_dir_all v p) /\ strict (vp_remove_dir_all v fuel p) /\ strict (vp_walk_dir v p) /\
+  strict (vp_read_to_string utf8 v p) /\
+  strict (vp_copy_file v p v' q) /\ strict (vp_move_file v p v' q) /\
+  strict (vp_copy_dir fuel v p v' q) /\ strict (vp_move_dir fuel v p v' q).
+Proof.
+  intros utf8 f g fuel p q t v v'.
+  pose proof (st_vfs_of f) as Hv. pose proof (st_vfs_of g) as Hv'.
+  repeat split;
+    first [now apply st_exists|now apply st_metadata|now apply st_read_dir|now apply st_create_dir
+          |now apply st_create_file|now apply st_append_file|now apply st_open_file|now apply st_remove_file
+          |now apply st_remove_dir|now apply st_set_ctime|now apply st_set_mtime|now apply st_set_atime
+          |now apply st_is_file|now apply st_is_dir|now apply st_create_dir_all|now apply st_remove_dir_all
+          |now apply st_walk_dir|now apply st_read_to_string|now apply st_copy_file|now apply st_move_file
+          |now apply st_copy_dir|now apply st_move_dir].
+Qed.
+
+(** what strictness means on the real base handler with its fault plan: if the fault that was armed
+    before the operation has fired by its end, the operation reports an I/O error *)
+Theorem C20_fired_fault_is_reported : forall T (m : bprog (res T)), strict m ->
+  forall st id k, st_fault st = Some (id, k) -> st_fault (fst (run bhandler m st)) = None ->
+  ioe (snd (run bhandler m st)).
+Proof. exact @strict_fault. Qed.
+
+(** a drained walk reports it as an item (out-of-fuel being the model's own artefact) *)
+Theorem C20_walk_yields_the_failure : forall v fuel w, (forall c, strict (v_impl v c)) ->
+  forall st id k, st_fault st = Some (id, k) ->
+  st_fault (fst (run bhandler (walk_collect v fuel w []) st)) = None ->
+  items_good (snd (run bhandler (walk_collect v fuel w []) st)).
+Proof. exact walk_fault. Qed.
+
 Example C20_example :
   fst (run bhandler (wrap_impl 3 (fun c => Call (BFs 0 c) Ret) (CExists []))
          (mkStore [] [] [] (Some (3, 0)))) = mkStore [] [] [(3, CExists [])] None.
@@ -51,3 +98,7 @@ Print Assumptions C20_create_dir_all_propagates.
 Print Assumptions C20_overlay_exists_propagates.
 Print Assumptions C20_lower_layers_untouched_under_faults.
 Print Assumptions C20_example.
+Print Assumptions C20_stackings_strict.
+Print Assumptions C20_path_api_strict.
+Print Assumptions C20_fired_fault_is_reported.
+Print Assumptions C20_walk_yields_the_failure.
